@@ -196,9 +196,14 @@ where
         }
 
         trace!("checkout interested in pooled connections");
-        inner.waiting.entry(token).or_default().push_back(tx);
+        let dependent = inner.connecting.contains(&token);
+        inner
+            .waiting
+            .entry(token)
+            .or_default()
+            .push_back((tx, dependent));
 
-        if inner.connecting.contains(&token) {
+        if dependent {
             trace!("connection in progress elsewhere, will wait");
             connector = None;
             Checkout::new(token, self.as_ref(), rx, connector, None, &inner.config)
@@ -309,7 +314,9 @@ where
     config: Config,
 
     connecting: HashSet<Token>,
-    waiting: HashMap<Token, VecDeque<Sender<Pooled<C, B>>>>,
+    /// Waiters for each token. The flag marks a waiter which is not connecting itself, but
+    /// depends on the connection attempt recorded in `connecting`.
+    waiting: HashMap<Token, VecDeque<(Sender<Pooled<C, B>>, bool)>>,
 
     idle: HashMap<Token, IdleConnections<C, B>>,
 }
@@ -332,6 +339,11 @@ where
         let existed = self.connecting.remove(&token);
         if existed {
             trace!("pending connection cancelled");
+            // Release the checkouts which were waiting on this attempt: dropping their
+            // senders resolves them with an error instead of leaving them pending forever.
+            if let Some(waiters) = self.waiting.get_mut(&token) {
+                waiters.retain(|(_, dependent)| !dependent);
+            }
         }
     }
 }
@@ -361,7 +373,7 @@ where
         if let Some(waiters) = self.waiting.get_mut(&token) {
             trace!(waiters=%waiters.len(), ?token, "walking waiters");
 
-            while let Some(waiter) = waiters.pop_front() {
+            while let Some((waiter, _)) = waiters.pop_front() {
                 if waiter.is_closed() {
                     trace!("skipping closed waiter");
                     continue;
